@@ -25,6 +25,10 @@ pub mod anyhow {
         { unimplemented!() }
     }
 }
+/// what `panic!(..)` becomes under T9: a call that must be unreachable (the message is dropped): `requires false`
+#[verifier::external_body]
+pub fn __panic() -> ! requires false { panic!() }
+
 /// what `format!(..)` becomes under T9 when its literal is not understood: some string
 #[verifier::external_body]
 pub fn __fmt_opaque() -> String { unimplemented!() }
